@@ -60,13 +60,17 @@ class Probe:
                 probe.compiles += 1
             return orig_compile(*a, **k)
 
+        # a generation that raises (e.g. polarity in a degenerate metric, a structurally singular division) produces no
+        # function and caches nothing; only completed generations are events
         def counting_codegen(codegen, *mvs):
+            out = orig_codegen(codegen, *mvs)
             probe.events.append((getattr(codegen, '__name__', '?'), tuple(tuple(m.keys()) for m in mvs)))
-            return orig_codegen(codegen, *mvs)
+            return out
 
         def counting_docompile(codegen, *tapes):
+            out = orig_docompile(codegen, *tapes)
             probe.events.append(('compile:' + getattr(codegen, '__name__', '?'), tuple(tuple(t.keys()) for t in tapes)))
-            return orig_docompile(codegen, *tapes)
+            return out
         builtins.compile = counting_compile
         od.do_codegen = counting_codegen
         od.do_compile = counting_docompile
